@@ -89,9 +89,12 @@ def replay(pid, path):
         print(f.get("rendered") or f.get("message"))
     from . import verus
     unit = rec["unit"]
-    mod = importlib.import_module("units.%s.unit" % unit)
+    if unit.startswith("hdrser_"):
+        spec = importlib.import_module("units.hdrser.unit").UNITS[unit[len("hdrser_"):]]
+    else:
+        spec = importlib.import_module("units.%s.unit" % unit).UNIT
     try:
-        res = verus.VerusUnit(mod.UNIT).run()
+        res = verus.VerusUnit(spec).run()
     except Undecided as e:
         log("UNDECIDED: %s" % e)
         return 2
